@@ -450,6 +450,11 @@ pub trait Fl: 'static + Sized {
     fn g_from_json(s: &str) -> Result<Self::Graph, String>;
     fn g_to_cbor(g: &Self::Graph) -> Result<Vec<u8>, String>;
     fn g_from_cbor(b: &[u8]) -> Result<Self::Graph, String>;
+    /// Serialise and read back through another wire format / entry point of
+    /// the two serde implementations: "cbor-packed", "cbor-selfdesc",
+    /// "cbor-reader", "json-value", "json-pretty-reader", "json-bytes".
+    /// Returns the new graph and a printable form of the document.
+    fn g_roundtrip_fmt(g: &Self::Graph, fmt: &str) -> Result<(Self::Graph, String), String>;
     /// Drop the container on another thread where the flavour allows it
     /// (sync flavours), otherwise here.
     fn g_drop_elsewhere(g: Self::Graph);
@@ -597,6 +602,48 @@ macro_rules! common_items {
         }
         fn g_from_cbor(b: &[u8]) -> Result<Self::Graph, String> {
             serde_cbor::from_slice(b).map_err(|e| e.to_string())
+        }
+        fn g_roundtrip_fmt(g: &Self::Graph, fmt: &str) -> Result<(Self::Graph, String), String> {
+            let es = |e: &dyn std::fmt::Display| e.to_string();
+            match fmt {
+                "cbor-packed" => {
+                    let b = serde_cbor::ser::to_vec_packed(g).map_err(|e| es(&e))?;
+                    Ok((serde_cbor::from_slice(&b).map_err(|e| es(&e))?, format!("{:?}", b)))
+                }
+                "cbor-selfdesc" => {
+                    let mut b = Vec::new();
+                    {
+                        let mut ser = serde_cbor::Serializer::new(&mut b);
+                        ser.self_describe().map_err(|e| es(&e))?;
+                        serde::Serialize::serialize(g, &mut ser).map_err(|e| es(&e))?;
+                    }
+                    Ok((serde_cbor::from_slice(&b).map_err(|e| es(&e))?, format!("{:?}", b)))
+                }
+                "cbor-reader" => {
+                    let mut b = Vec::new();
+                    serde_cbor::to_writer(&mut b, g).map_err(|e| es(&e))?;
+                    Ok((serde_cbor::from_reader(std::io::Cursor::new(&b)).map_err(|e| es(&e))?, format!("{:?}", b)))
+                }
+                "cbor-value" => {
+                    let v = serde_cbor::value::to_value(g).map_err(|e| es(&e))?;
+                    let txt = format!("{:?}", v);
+                    Ok((serde_cbor::value::from_value(v).map_err(|e| es(&e))?, txt))
+                }
+                "json-value" => {
+                    let v = serde_json::to_value(g).map_err(|e| es(&e))?;
+                    let txt = v.to_string();
+                    Ok((serde_json::from_value(v).map_err(|e| es(&e))?, txt))
+                }
+                "json-pretty-reader" => {
+                    let b = serde_json::to_vec_pretty(g).map_err(|e| es(&e))?;
+                    Ok((serde_json::from_reader(std::io::Cursor::new(&b)).map_err(|e| es(&e))?, String::from_utf8_lossy(&b).to_string()))
+                }
+                "json-bytes" => {
+                    let b = serde_json::to_vec(g).map_err(|e| es(&e))?;
+                    Ok((serde_json::from_slice(&b).map_err(|e| es(&e))?, String::from_utf8_lossy(&b).to_string()))
+                }
+                other => Err(format!("harness: unknown format {}", other)),
+            }
         }
     };
 }
